@@ -2,7 +2,7 @@
 # seedtest.sh <ID> [tier]: confirm a sub-agent's seeded change in its scratch worktree
 # (suite passes with it, demo fails with it and passes without it), then run the
 # property's check against /repo with the patch applied and undo it.
-ID=$1; TIER=${2:-quick}
+ID=$1; TIER=${2:-quick}; PROP=$(echo $ID | sed "s/[a-z]$//")
 WT=/tmp/wt/$ID; OUT=/tmp/wt/$ID-out
 export GOFLAGS=-mod=mod GOPROXY=off GOSUMDB=off GOTOOLCHAIN=local
 set -u
@@ -30,10 +30,10 @@ if [ "$BASE" != pass ] || [ "$WITH" != fail ] || [ "$SUITE" != 0 ]; then git che
 if [ "${VERIF_REAL:-0}" = 1 ]; then
   git checkout -q . ; git clean -fdq
   cd /repo && git apply $OUT/patch.diff || exit 6
-  cd /verif && VERIF_EVIDENCE_DIR=$OUT timeout 7200 ./bin/check $ID $TIER > $OUT/check_$TIER.log 2>&1; RC=$?
+  cd /verif && VERIF_EVIDENCE_DIR=$OUT timeout 7200 ./bin/check $PROP $TIER > $OUT/check_$TIER.log 2>&1; RC=$?
   git -C /repo checkout -- .
 else
-  cd /verif && VERIF_REPO=$WT VERIF_EVIDENCE_DIR=$OUT timeout 7200 ./bin/check $ID $TIER > $OUT/check_$TIER.log 2>&1; RC=$?
+  cd /verif && VERIF_REPO=$WT VERIF_EVIDENCE_DIR=$OUT timeout 7200 ./bin/check $PROP $TIER > $OUT/check_$TIER.log 2>&1; RC=$?
   cd $WT && git checkout -q . && git clean -fdq
 fi
 log "check $TIER exit=$RC: $(grep -c '^VIOLATION' $OUT/check_$TIER.log) violation lines; $(grep '^VIOLATION' -A1 $OUT/check_$TIER.log | grep signature | sed 's/.*signature=//' | head -4 | tr '\n' ' ')"
